@@ -16,8 +16,10 @@ def mask_out(line):
         i = p.rfind("@")
         ev, stt = (p[:i + 1], p[i + 1:]) if i >= 0 else ("", p)
         f = stt.split(":")
-        if len(f) == 5:
+        if len(f) >= 5:
             f[3] = "_"
+            if len(f) >= 9:
+                f[7] = "_"; f[8] = "_"
         out.append(ev + ":".join(f))
     return "|".join(out) + sep + tail
 
